@@ -149,7 +149,12 @@ inline bool Futex::Awaitable::await_suspend(
   node->promise = &handle.promise();
   node->handle = handle;
   auto success = _futex->add_awaiter(node, _expected_value);
-  if (success && _on_suspend) {
+  if (!success) {
+    // Not suspended and never published: give the deposit box slot back.
+    box.take(id);
+    return false;
+  }
+  if (_on_suspend) {
     _on_suspend({id});
   }
   return success;
